@@ -345,7 +345,7 @@ class Model:
         try:
             vf = os.path.join(d, 'xcases.v')
             open(vf, 'w').write('\n'.join(lines) + '\n')
-            r = sh('ulimit -s unlimited 2>/dev/null; timeout 600 coqc -q -Q Model DI -Q %s X %s' % (d, vf), cwd=COQ, timeout=700)
+            r = sh('ulimit -s unlimited 2>/dev/null; timeout 600 coqc -q -Q Model DI -Q Spec DI -Q Proofs DI -Q %s X %s' % (d, vf), cwd=COQ, timeout=700)
             if r.returncode:
                 return len(items), r.stdout[-2000:]
             return len(items), None
